@@ -52,8 +52,12 @@ func Init(dir string) {
 		workDir = dir
 		conf := filepath.Join(dir, "conf")
 		must(os.MkdirAll(conf, 0o755))
+		level := os.Getenv("VERIF_LOGLEVEL") // diagnostics only
+		if level == "" {
+			level = "error"
+		}
 		must(ioutil.WriteFile(filepath.Join(conf, "log.yaml"),
-			[]byte("module: xchain\nfilename: xchain\nfmt: logfmt\nconsole: false\nlevel: error\n"), 0o644))
+			[]byte("module: xchain\nfilename: xchain\nfmt: logfmt\nconsole: false\nlevel: "+level+"\n"), 0o644))
 		logs.InitLog(filepath.Join(conf, "log.yaml"), filepath.Join(dir, "logs"))
 		c, err := cryptoClient.CreateCryptoClient(cryptoClient.CryptoTypeDefault)
 		must(err)
@@ -160,7 +164,7 @@ func Genesis(o GenesisOpts) []byte {
 		"new_account_resource_amount": o.NewAcctGas,
 		"irreversibleslidewindow":      fmt.Sprint(o.Window),
 		"genesis_consensus": map[string]interface{}{"name": "single",
-			"config": map[string]interface{}{"miner": GetKey(o.Miner).Address, "period": 3000}},
+			"config": map[string]interface{}{"miner": GetKey(o.Miner).Address, "period": "3000"}},
 	}
 	b, err := json.Marshal(g)
 	must(err)
